@@ -86,6 +86,27 @@ REQUIRED = (
     "positioned_described_histories", "positioned_described_generated_unpack_then_tracked_change",
     "positioned_described_generic_unpack_then_tracked_change", "positioned_described_struct_coded_generated_unpack",
     "positioned_described_packs_with_fill_bytes",
+    # embedded layout: Ref(Body, embed=True), every operation on the outer packet
+    "embedded_histories", "embedded_two_packet_histories", "embedded_failing_read_histories",
+    "embedded_generic_packs_auto_after_tracked_change", "embedded_generated_packs_auto_after_tracked_change",
+    "embedded_generic_packs_auto_after_unpack_then_tracked_change", "embedded_generated_packs_auto_after_unpack_then_tracked_change",
+    "embedded_generic_deletes_while_explicit", "embedded_generated_deletes_while_explicit",
+    "embedded_generic_packs_explicit_inconsistent", "embedded_generated_packs_explicit_inconsistent",
+    # optional tracked field
+    "optional_histories", "optional_two_packet_histories", "optional_failing_read_histories",
+    "optional_generic_packs_auto_after_tracked_change", "optional_generated_packs_auto_after_tracked_change",
+    "packs_explicit_with_absent_optional_tracked",
+    # Auto(func) reading the described attribute of another packet of the same class
+    "chained_histories", "chained_two_packet_histories", "chained_reads_through_other_instance",
+    "chained_generic_packs_auto_after_tracked_change", "chained_generated_packs_auto_after_tracked_change",
+    # failing computed reads, then restore
+    "failing_read_histories", "failing_read_two_packet_histories", "failing_read_two_packet_sampled_histories",
+    "tracked_set_to_none", "computed_reads_failed", "tracked_restored_after_failed_read",
+    "computed_reads_after_failed_read_same_instance", "computed_reads_after_failed_read_on_other_instance",
+    "packs_auto_after_failed_read_and_restore",
+    "nested_failing_read_histories", "nested_failing_read_histories_ref", "nested_failing_read_histories_seq",
+    "nested_computed_reads_failed", "nested_computed_reads_after_failed_read",
+    "nested_computed_reads_after_failed_read_on_other_inner", "nested_packs_after_failed_read_and_restore",
 )
 RULE = {
     "quick": "4 declarations (AutoLength over Data sized by the described field; the same with the described Int(2) inside "
@@ -338,7 +359,7 @@ def starts_for(v):
     """JSON-able start descriptors: ["ctor", {kw: value}] | ["unpack", raw, parsed_tracked, others]."""
     d, t, f = v["described"], v["tracked"], v["f"]
     tv0, tv1 = v["tv"]
-    k_default = f(len(v["default"]))       # consistent with the default tracked value
+    k_default = f(len(v["default"] or b""))   # consistent with the default tracked value (an absent one counts as empty)
     k0 = f(len(tv0))                       # consistent with tv0
     out = [
         ["ctor", {}],
@@ -373,9 +394,12 @@ class Ctx:
         self.tv = variant["tv"]
         f = self.f
         self.kv = [f(len(self.tv[0])), variant["k_incons"]]   # D0: consistent with tv0, D1: never consistent
-        reachable = {f(len(variant["default"])), f(len(self.tv[0])), f(len(self.tv[1]))}
-        reachable |= {f(len(p)) for _, p, _ in variant["raws"]}
+        reachable = {f(len(variant["default"] or b"")), f(len(self.tv[0])), f(len(self.tv[1]))}
+        reachable |= {f(len(p or b"")) for _, p, _ in variant["raws"]}
         assert variant["k_incons"] not in reachable
+        self.chained = bool(variant.get("chained"))
+        self.none_ok = bool(variant.get("none_packs_empty"))   # None is a regular value of the tracked field (packs as nothing)
+        self.group = variant.get("group")
 
     def encode(self, visible, tracked, others):
         out = b""
@@ -383,7 +407,9 @@ class Ctx:
             if item[0] == "D":
                 out += int(visible).to_bytes(item[1], "big")
             elif item[0] == "T":
-                out += bytes(tracked)
+                out += b"" if tracked is None else bytes(tracked)
+            elif item[0] == "L":
+                out += len(tracked).to_bytes(1, "big")
             elif item[0] == "at":
                 out += FILL * (item[1] - len(out))
             elif item[0] == "shift":
@@ -416,6 +442,7 @@ def execute(ctx, starts, ops, mode, st, states=None):
     mode: 'pure' | 'observed'.  Returns None or a (what, detail) pair describing the first violation."""
     cls = ctx.cls
     dname, tname, f = ctx.dname, ctx.tname, ctx.f
+    chained, none_ok = ctx.chained, ctx.none_ok
     pk = []      # real packets
     md = []      # models: [explicit, xval, tracked, others, tracked_changed_since_start, assigned_since_unpack]
     for s in starts:
@@ -429,13 +456,63 @@ def execute(ctx, starts, ops, mode, st, states=None):
             else:
                 p = cls.unpack(s[1])
                 m = [False, None, _fresh(s[2]), dict(s[3]), False, False]
+            if chained:
+                p.prev = pk[-1] if pk else None      # harness-owned extra slot: packet i computes from packet i-1
         except Exception as e:
             return ("start raised %s" % type(e).__name__, {"step": -1, "error": "%s: %s" % (type(e).__name__, str(e)[:300])})
         pk.append(p)
         md.append(m)
+    failed = [False] * len(pk)      # a computed read of this packet raised (tracked field None) earlier in the history
+    nfailed = [0]
 
-    def visible(m):
-        return m[1] if m[0] else f(len(m[2]))
+    def auto_value(i):
+        t = md[i][2]
+        if t is None:
+            return _BROKEN
+        if chained:
+            if i:
+                pv = visible(i - 1)
+                if pv is _BROKEN:
+                    return _BROKEN
+                return (len(t) + pv) & 0xff
+            return len(t) & 0xff
+        return f(len(t))
+
+    def visible(i):
+        m = md[i]
+        return m[1] if m[0] else auto_value(i)
+
+    def failing_read(p, i):
+        # the computed value does not exist: nothing is fixed about this read
+        try:
+            getattr(p, dname)
+        except Exception:
+            st.add("computed_reads_failed")
+            if not failed[i]:
+                failed[i] = True
+                nfailed[0] += 1
+        else:
+            st.add("computed_reads_in_failing_state_returned_not_judged")
+
+    def note_computed_read(i):
+        # a judged read of a computed value
+        if chained and i:
+            st.add("chained_reads_through_other_instance")
+        if nfailed[0]:
+            if failed[i]:
+                st.add("computed_reads_after_failed_read_same_instance")
+                if nfailed[0] > 1:
+                    st.add("computed_reads_after_failed_read_on_other_instance")
+            else:
+                st.add("computed_reads_after_failed_read_on_other_instance")
+
+    def unjudged_pack(p):
+        try:
+            p.pack()
+        except Exception:
+            st.add("packs_in_failing_state_raised_not_judged")
+        else:
+            st.add("packs_in_failing_state_returned_not_judged")
 
     # a second consecutive pack is part of the closing observation of a pure history only (in observed mode the
     # enumerated histories containing PK PK cover it)
@@ -446,32 +523,43 @@ def execute(ctx, starts, ops, mode, st, states=None):
         reads = []
         for i, p in enumerate(pk):
             m = md[i]
+            want = visible(i)
             try:
-                r = getattr(p, dname)
+                if want is _BROKEN:
+                    failing_read(p, i)
+                    r = _BROKEN
+                else:
+                    r = getattr(p, dname)
                 t = getattr(p, tname)
                 o = {n: getattr(p, n) for n in ctx.others}
             except Exception as e:
                 return ("attribute read raised %s" % type(e).__name__,
                         {"step": step, "packet": i, "error": "%s: %s" % (type(e).__name__, str(e)[:300])})
-            st.add("reads_compared")
-            if m[5] is False:
-                st.add("reads_after_unpack_before_assignment")
-                if m[4]:
-                    st.add("observed_after_unpack_then_tracked_change")
             if t != m[2] or o != m[3]:
                 return ("tracked/plain field does not read as last assigned or parsed (disturbed by the described-field machinery)",
                         {"step": step, "packet": i, "got": {"tracked": t, "others": o},
                          "want": {"tracked": m[2], "others": m[3]}})
-            want = visible(m)
-            if r != want:
-                return ("described attribute reads %r but the model (explicit=%s) says %r" % (r, m[0], want),
-                        {"step": step, "packet": i, "got": r, "want": want,
-                         "model": {"explicit": m[0], "explicit_value": m[1], "tracked": m[2]}})
+            if want is not _BROKEN:
+                st.add("reads_compared")
+                if m[5] is False:
+                    st.add("reads_after_unpack_before_assignment")
+                    if m[4]:
+                        st.add("observed_after_unpack_then_tracked_change")
+                if r != want:
+                    return ("described attribute reads %r but the model (explicit=%s) says %r" % (r, m[0], want),
+                            {"step": step, "packet": i, "got": r, "want": want,
+                             "model": {"explicit": m[0], "explicit_value": m[1], "tracked": m[2]},
+                             "computed_read_failed_earlier_on_packets": [j for j, x in enumerate(failed) if x]})
+                if not m[0]:
+                    note_computed_read(i)
             reads.append((r, t, o))
         # 2. pack every packet, compare with the reference encoding of what was just read
         for i, p in enumerate(pk):
             m = md[i]
             r, t, o = reads[i]
+            if r is _BROKEN or (t is None and not none_ok):
+                unjudged_pack(p)
+                continue
             want = ctx.encode(r, t, o)
             for attempt in attempts:
                 try:
@@ -487,15 +575,21 @@ def execute(ctx, starts, ops, mode, st, states=None):
                              "reads": {"described": r, "tracked": t, "others": o},
                              "model": {"explicit": m[0], "explicit_value": m[1], "tracked": m[2]}})
             if m[0]:
-                st.add("packs_explicit_consistent" if m[1] == f(len(m[2])) else "packs_explicit_inconsistent")
+                st.add("packs_explicit_consistent" if m[1] == auto_value(i) else "packs_explicit_inconsistent")
+                if t is None:
+                    st.add("packs_explicit_with_absent_optional_tracked")
             else:
                 st.add("packs_auto")
                 if m[4]:
                     st.add("packs_auto_after_tracked_change")
+                    if m[5] is False:
+                        st.add("packs_auto_after_unpack_then_tracked_change")
+                if failed[i]:
+                    st.add("packs_auto_after_failed_read_and_restore")
         # 3. reads after pack (of every packet: a pack of one must not change the other either)
         for i, p in enumerate(pk):
             try:
-                r2 = getattr(p, dname)
+                r2 = _BROKEN if reads[i][0] is _BROKEN else getattr(p, dname)
                 t2 = getattr(p, tname)
                 o2 = {n: getattr(p, n) for n in ctx.others}
             except Exception as e:
@@ -515,13 +609,20 @@ def execute(ctx, starts, ops, mode, st, states=None):
         p = pk[i]
         m = md[i]
         if states is not None:
-            states.add((m[0], (m[1] == f(len(m[2]))) if m[0] else None, len(m[2]), op))
+            states.add((m[0], (m[1] == auto_value(i)) if m[0] else None, -1 if m[2] is None else len(m[2]), op))
         try:
             if op == "T0" or op == "T1":
                 val = ctx.tv[0 if op == "T0" else 1]
+                if m[2] is None and failed[i]:
+                    st.add("tracked_restored_after_failed_read")
                 setattr(p, tname, _fresh(val))
                 m[2] = _fresh(val)
                 m[4] = True
+            elif op == "TN":
+                setattr(p, tname, None)
+                m[2] = None
+                m[4] = True
+                st.add("tracked_set_to_none")
             elif op == "D0" or op == "D1":
                 val = ctx.kv[0 if op == "D0" else 1]
                 if m[0]:
@@ -541,23 +642,33 @@ def execute(ctx, starts, ops, mode, st, states=None):
                 st.add("deletes_while_explicit" if was else "deletes_while_auto")
                 m[0] = False
             elif op == "RD":
-                r = getattr(p, dname)
-                st.add("reads_compared")
-                if m[5] is False:
-                    st.add("reads_after_unpack_before_assignment")
-                want = visible(m)
-                if r != want:
-                    return ("described attribute reads %r but the model (explicit=%s) says %r" % (r, m[0], want),
-                            {"step": step, "packet": i, "got": r, "want": want,
-                             "model": {"explicit": m[0], "explicit_value": m[1], "tracked": m[2]}})
+                want = visible(i)
+                if want is _BROKEN:
+                    failing_read(p, i)
+                else:
+                    r = getattr(p, dname)
+                    st.add("reads_compared")
+                    if m[5] is False:
+                        st.add("reads_after_unpack_before_assignment")
+                    if r != want:
+                        return ("described attribute reads %r but the model (explicit=%s) says %r" % (r, m[0], want),
+                                {"step": step, "packet": i, "got": r, "want": want,
+                                 "model": {"explicit": m[0], "explicit_value": m[1], "tracked": m[2]},
+                                 "computed_read_failed_earlier_on_packets": [j for j, x in enumerate(failed) if x]})
+                    if not m[0]:
+                        note_computed_read(i)
             elif op == "PK":
-                b = p.pack()
-                st.add("packs_compared")
-                want = ctx.encode(visible(m), m[2], m[3])
-                if b != want:
-                    return ("pack() bytes differ from the reference encoding of the model state",
-                            {"step": step, "packet": i, "got": b2j(b), "want": b2j(want),
-                             "model": {"explicit": m[0], "explicit_value": m[1], "tracked": m[2]}})
+                vis = visible(i)
+                if vis is _BROKEN or (m[2] is None and not none_ok):
+                    unjudged_pack(p)
+                else:
+                    b = p.pack()
+                    st.add("packs_compared")
+                    want = ctx.encode(vis, m[2], m[3])
+                    if b != want:
+                        return ("pack() bytes differ from the reference encoding of the model state",
+                                {"step": step, "packet": i, "got": b2j(b), "want": b2j(want),
+                                 "model": {"explicit": m[0], "explicit_value": m[1], "tracked": m[2]}})
             else:
                 raise RuntimeError("unknown op %r" % (op,))
         except RuntimeError:
@@ -577,8 +688,10 @@ def execute(ctx, starts, ops, mode, st, states=None):
 def _witness(ctx, starts, ops, mode, detail):
     w = {"declaration": ctx.source, "class": ctx.cls.__name__, "variant": ctx.v["name"], "options": ctx.optname,
          "starts": starts, "ops": [list(o) for o in ops], "mode": mode,
-         "op_values": {"T0": ctx.tv[0], "T1": ctx.tv[1], "D0": ctx.kv[0], "D1": ctx.kv[1]},
+         "op_values": {"T0": ctx.tv[0], "T1": ctx.tv[1], "D0": ctx.kv[0], "D1": ctx.kv[1], "TN": None},
          "described": ctx.dname, "tracked": ctx.tname}
+    if ctx.chained:
+        w["note"] = "packet i has its extra slot prev = packet i-1 (None for packet 0), set by the harness right after the start"
     w.update(detail)
     return w
 
@@ -634,11 +747,20 @@ def define_classes(run, scratch, count=True):
 
 
 TWO_OPS = tuple((i, op) for i in (0, 1) for op in OPS)
+TWO_OPS8 = tuple((i, op) for i in (0, 1) for op in OPS8)
 
 
 def two_packet_starts(v):
     s = starts_for(v)
-    unpack1 = [x for x in s if x[0] == "unpack"][0]
+    unpacks = [x for x in s if x[0] == "unpack"]
+    unpack1 = unpacks[0]
+    if v["default"] is None:
+        # optional tracked field: a default packet has no computed value; pair it with one that has
+        return [
+            [s[0], s[3]],                  # C() (computed read fails), C(tracked=v1)
+            [s[5], s[0]],                  # C(described=k inconsistent, tracked=v2), C()
+            [unpacks[1], unpack1],         # unpack(raw without the tracked field), unpack(raw with it)
+        ]
     return [
         [s[0], s[0]],            # C(), C()
         [s[5], s[3]],            # C(described=k inconsistent, tracked=v2), C(tracked=v1)
@@ -658,6 +780,11 @@ NPK = (-1, "PK")
 NESTED_ALPHABET = {
     "ref": tuple((0, op) for op in INNER_OPS) + (NPK,),
     "seq": tuple((i, op) for i in (0, 1) for op in INNER_OPS) + (NPK,),
+}
+INNER_OPS_TN = INNER_OPS + ("TN",)
+NESTED_ALPHABET_TN = {
+    "ref": tuple((0, op) for op in INNER_OPS_TN) + (NPK,),
+    "seq": tuple((i, op) for i in (0, 1) for op in INNER_OPS_TN) + (NPK,),
 }
 
 
@@ -804,17 +931,45 @@ def execute_nested(nctx, start, ops, st):
     if unpacked_explicit_proto:
         st.add("nested_unpacked_inner_with_explicit_prototype", len(pk))
     tchanged = [False]
+    failed = [False] * len(pk)      # a computed read of this inner raised (tracked field None) earlier in the history
 
     def visible(m):
-        return m[1] if m[0] else f(len(m[2]))
+        if m[0]:
+            return m[1]
+        return _BROKEN if m[2] is None else f(len(m[2]))
+
+    def failing_read(p, i):
+        try:
+            getattr(p, dname)
+        except Exception:
+            st.add("nested_computed_reads_failed")
+            failed[i] = True
+        else:
+            st.add("nested_computed_reads_in_failing_state_returned_not_judged")
 
     def read_all():
         out = []
-        for p in pk:
-            out.append((getattr(p, dname), getattr(p, tname), {n: getattr(p, n) for n in ictx.others}))
+        for i, p in enumerate(pk):
+            if visible(md[i]) is _BROKEN:
+                failing_read(p, i)
+                r = _BROKEN
+            else:
+                r = getattr(p, dname)
+            out.append((r, getattr(p, tname), {n: getattr(p, n) for n in ictx.others}))
         return out
 
     def outer_pack(step, reads, closing):
+        if any(r is _BROKEN or t is None for r, t, o in reads):
+            # some inner has no computed value / an unpackable tracked field: the outer pack is not judged
+            try:
+                outer.pack()
+            except Exception:
+                st.add("nested_packs_in_failing_state_raised_not_judged")
+            else:
+                st.add("nested_packs_in_failing_state_returned_not_judged")
+            return None
+        if any(failed):
+            st.add("nested_packs_after_failed_read_and_restore")
         want = bytes([prefix]) + b"".join(ictx.encode(r, t, o) for r, t, o in reads)
         for attempt in ((0, 1) if (closing and nctx.kind == "ref") else (0,)):
             try:
@@ -858,10 +1013,15 @@ def execute_nested(nctx, start, ops, st):
                 return None, ("inner tracked/plain field does not read as last assigned or parsed",
                               {"step": step, "packet": i, "got": {"tracked": t, "others": o}, "want": {"tracked": m[2], "others": m[3]}})
             want = visible(m)
-            if r != want:
+            if r is not want and r != want:
                 return None, ("inner described attribute reads %r but the model (explicit=%s) says %r" % (r, m[0], want),
                               {"step": step, "packet": i, "got": r, "want": want,
-                               "model": {"explicit": m[0], "explicit_value": m[1], "tracked": m[2]}})
+                               "model": {"explicit": m[0], "explicit_value": m[1], "tracked": m[2]},
+                               "computed_read_failed_earlier_on_inners": [j for j, x in enumerate(failed) if x]})
+            if not m[0] and want is not _BROKEN and any(failed):
+                st.add("nested_computed_reads_after_failed_read")
+                if any(x for j, x in enumerate(failed) if j != i):
+                    st.add("nested_computed_reads_after_failed_read_on_other_inner")
         return reads, None
 
     nops = len(ops)
@@ -882,6 +1042,12 @@ def execute_nested(nctx, start, ops, st):
                     m[2] = _fresh(val)
                     m[4] = True
                     tchanged[0] = True
+                elif op == "TN":
+                    setattr(p, tname, None)
+                    m[2] = None
+                    m[4] = True
+                    tchanged[0] = True
+                    st.add("nested_tracked_set_to_none")
                 elif op == "D0" or op == "D1":
                     val = ictx.kv[0 if op == "D0" else 1]
                     setattr(p, dname, val)
@@ -898,13 +1064,21 @@ def execute_nested(nctx, start, ops, st):
                     m[0] = False
                     m[4] = True
                 elif op == "RD":
+                    want = visible(m)
+                    if want is _BROKEN:
+                        failing_read(p, i)
+                        continue
                     r = getattr(p, dname)
                     st.add("nested_reads_compared")
-                    want = visible(m)
                     if r != want:
                         return ("inner described attribute reads %r but the model (explicit=%s) says %r" % (r, m[0], want),
                                 {"step": step, "packet": i, "got": r, "want": want,
-                                 "model": {"explicit": m[0], "explicit_value": m[1], "tracked": m[2]}})
+                                 "model": {"explicit": m[0], "explicit_value": m[1], "tracked": m[2]},
+                                 "computed_read_failed_earlier_on_inners": [j for j, x in enumerate(failed) if x]})
+                    if not m[0] and any(failed):
+                        st.add("nested_computed_reads_after_failed_read")
+                        if any(x for j, x in enumerate(failed) if j != i):
+                            st.add("nested_computed_reads_after_failed_read_on_other_inner")
                 else:
                     raise RuntimeError("unknown op %r" % (op,))
         except RuntimeError:
@@ -947,12 +1121,37 @@ def _nested_witness(nctx, start, ops, detail):
          "outer_kind": nctx.kind, "outer_options": nctx.ooptname, "variant": ictx.v["name"], "options": ictx.optname,
          "ref_prototype": nctx.proto, "ref_prototype_keywords": nctx.proto_kw,
          "start": start, "ops": [list(o) for o in ops], "mode": "pure",
-         "op_values": {"T0": ictx.tv[0], "T1": ictx.tv[1], "D0": ictx.kv[0], "D1": ictx.kv[1]},
+         "op_values": {"T0": ictx.tv[0], "T1": ictx.tv[1], "D0": ictx.kv[0], "D1": ictx.kv[1], "TN": None},
          "described": ictx.dname, "tracked": ictx.tname,
          "note": "ops [i, OP] act on inner packet i; [-1, 'PK'] packs the OUTER packet; the closing observation packs the outer"}
     w.update(detail)
     return w
 
+
+
+def _has_tn(ops):
+    for _, op in ops:
+        if op == "TN":
+            return True
+    return False
+
+
+def fail_start_indices(v, quick):
+    """Starts used by the failing-read parts (Part 6): a spread of explicit / automatic / unpacked starts."""
+    n = len(starts_for(v))
+    if not quick:
+        return list(range(n))
+    return [0, 2, 3, 5, 6]
+
+
+def sampled_two_packet_history(rng, lo, hi):
+    """A seeded two-packet history over the 16 operations that contains TN and reads (weighted towards TN / RD / T0)."""
+    n = rng.randint(lo, hi)
+    weighted = TWO_OPS8 + tuple((i, op) for i in (0, 1) for op in ("TN", "RD", "RD", "T0"))
+    ops = [weighted[rng.randrange(len(weighted))] for _ in range(n)]
+    if not _has_tn(ops):
+        ops[rng.randrange(max(1, n - 1))] = (rng.randrange(2), "TN")
+    return tuple(ops)
 
 
 def run(run):
@@ -963,35 +1162,77 @@ def run(run):
     L2 = 3 if quick else 4
     L3 = {"ref": 3 if quick else 4, "seq": 2 if quick else 4}     # nested part, Ref(Inner)
     L3I = {"ref": 3 if quick else 4, "seq": 2 if quick else 3}    # nested part, Ref(Inner(...)) instance prototypes
-    LP = 3 if quick else 5            # Part 4 (positioned described field): pure histories 1..LP, observed LP-1
-    budget = 150.0 if quick else 560.0
+    LP = 3 if quick else 5            # short bound (positioned / embedded / optional / chained): pure 1..LP, observed LP-1
+    LF = 3 if quick else 5            # Part 6: single-packet histories containing TN
+    LF2 = 2 if quick else 3           # Part 7: two-packet histories containing TN, exhaustive bound
+    NF2 = 100 if quick else 480       # Part 7: seeded samples per (class, start pair), lengths LF2+1 .. LF2+3
+    LF3 = {"ref": 3 if quick else 4, "seq": 2 if quick else 3}    # Part 8: nested histories containing TN
+    # watchdog: CPU seconds of this process (a busy machine must not make the run inconclusive) + a generous wall limit
+    cpu_budget = 200.0 if quick else 600.0
+    wall_budget = 900.0 if quick else 840.0
     t0 = time.time()
+    c0 = time.process_time()
+
+    def over_budget():
+        if time.process_time() - c0 > cpu_budget:
+            run.inconclusive_because("watchdog: enumeration not finished within %.0f CPU-seconds" % cpu_budget)
+            return True
+        if time.time() - t0 > wall_budget:
+            run.inconclusive_because("watchdog: enumeration not finished within %.0fs wall time" % wall_budget)
+            return True
+        return False
+
     scratch = common.scratch_dir("bvf_c17_")
     try:
         ctxs = define_classes(run, scratch, count=(shard == 0))
         nctxs = define_nested_classes(run, scratch, count=(shard == 0))
         st = Stats()
-        pst = {"generic": Stats(), "generated": Stats()}     # Part 4 statistics, by code path of the class
+        gst = {}       # statistics of the grouped variants, by (group, code path of the class)
         states = set()
+
+        def stats_for(ctx):
+            g = ctx.group
+            if g is None:
+                return st
+            key = (g, "generic" if ctx.optname == "generic" else "generated")
+            if key not in gst:
+                gst[key] = Stats()
+            return gst[key]
 
         # ---- jobs: (part, ctx index, start index, mode, first op index) -------------------------------
         jobs = []
         for ci, ctx in enumerate(ctxs):
-            ns = len(starts_for(ctx.v))
+            v = ctx.v
+            ns = len(starts_for(v))
             for si in range(ns):
                 for mode in ("pure", "observed"):
                     for fo in range(len(OPS)):
                         jobs.append((1, ci, si, mode, fo))
-            if ctx.v.get("positioned"):
+            if v.get("plain") or v.get("two"):
+                for si in range(3):
+                    for fo in range(len(TWO_OPS)):
+                        jobs.append((2, ci, si, "pure", fo))
+            if v.get("positioned"):
                 continue
-            for si in range(3):
-                for fo in range(len(TWO_OPS)):
-                    jobs.append((2, ci, si, "pure", fo))
+            for si in fail_start_indices(v, quick):
+                for fo in range(len(OPS8)):
+                    jobs.append((6, ci, si, "pure", fo))
+            if v.get("plain") or v.get("two"):
+                for si in range(3):
+                    for fo in range(len(TWO_OPS8)):
+                        jobs.append((7, ci, si, "pure", fo))
+                    jobs.append((7, ci, si, "sampled", -1))
 
         for ni, nctx in enumerate(nctxs):
+            if quick and nctx.proto_kw is not None and nctx.ictx.optname == "novector":
+                continue        # quick tier: instance prototypes with generic and default inner classes only
             for si in range(len(nested_starts(nctx))):
                 for fo in range(len(NESTED_ALPHABET[nctx.kind])):
                     jobs.append((3, ni, si, "pure", fo))
+            if nctx.proto_kw is None:
+                for si in range(len(nested_starts(nctx))):
+                    for fo in range(len(NESTED_ALPHABET_TN[nctx.kind])):
+                        jobs.append((8, ni, si, "pure", fo))
 
         stop = False
         samples = 0
@@ -1001,17 +1242,21 @@ def run(run):
                 continue
             if stop:
                 break
-            if part == 3:
+            if part == 3 or part == 8:
                 nctx = nctxs[ci]
                 start = nested_starts(nctx)[si]
-                alphabet = NESTED_ALPHABET[nctx.kind]
+                tn_only = part == 8
+                alphabet = (NESTED_ALPHABET_TN if tn_only else NESTED_ALPHABET)[nctx.kind]
                 first = alphabet[fo]
-                keybase = "3|%s|%d|" % (nctx.ocls.__name__, si)
+                keybase = "%d|%s|%d|" % (part, nctx.ocls.__name__, si)
                 run.cover("nested_starts", "%s/%s: %s" % (nctx.ictx.v["name"], nctx.kind, start))
                 n_exec = 0
-                for length in range(1, (L3 if nctx.proto_kw is None else L3I)[nctx.kind] + 1):
+                maxlen = (LF3 if tn_only else (L3 if nctx.proto_kw is None else L3I))[nctx.kind]
+                for length in range(1, maxlen + 1):
                     for rest in itertools.product(alphabet, repeat=length - 1):
                         ops = (first,) + rest
+                        if tn_only and not _has_tn(ops):
+                            continue
                         nt = start["how"] != "default" or bool(start.get("proto")) or any(op in STATE_CHANGING for _, op in ops)
                         if nt:
                             run.case(key=keybase + ",".join("%d%s" % o for o in ops[:3]), nontrivial=True)
@@ -1030,10 +1275,13 @@ def run(run):
                             nested_samples += 1
                     if stop:
                         break
-                    if time.time() - t0 > budget:
-                        run.inconclusive_because("watchdog: enumeration not finished within %.0fs" % budget)
+                    if over_budget():
                         stop = True
                         break
+                if tn_only:
+                    run.count("nested_failing_read_histories", n_exec)
+                    run.count("nested_failing_read_histories_%s" % nctx.kind, n_exec)
+                    continue
                 run.count("nested_histories", n_exec)
                 if nctx.proto_kw is not None:
                     run.count("nested_instance_prototype_histories", n_exec)
@@ -1041,30 +1289,70 @@ def run(run):
                 run.count("nested_histories_%s_outer_%s" % (nctx.kind, nctx.ooptname), n_exec)
                 continue
             ctx = ctxs[ci]
+            v = ctx.v
+            group = ctx.group
+            short = group is not None
+            need_tn = False
             if part == 1:
-                starts = [starts_for(ctx.v)[si]]
+                starts = [starts_for(v)[si]]
                 alphabet = tuple((0, op) for op in OPS)
-                lengths = range(1, L + 1) if mode == "pure" else (LOBS,)
+                lmax = L
+                if quick and ctx.optname == "novector":
+                    lmax = L - 1          # quick tier: the non-vectorised generated code gets one operation less
+                lengths = range(1, lmax + 1) if mode == "pure" else (LOBS,)
                 counter = "histories_pure" if mode == "pure" else "histories_observed"
-                if ctx.v.get("positioned"):
+                if short:
                     lengths = range(1, LP + 1) if mode == "pure" else (LP - 1,)
-                    counter = "positioned_described_histories"
-            else:
-                starts = two_packet_starts(ctx.v)[si]
+                    counter = "positioned_described_histories" if group == "positioned" else "%s_histories" % group
+            elif part == 2:
+                starts = two_packet_starts(v)[si]
                 alphabet = TWO_OPS
-                lengths = range(1, L2 + 1)
+                lmax = L2
+                if quick and (ctx.optname == "novector" or group in ("optional", "embedded")):
+                    lmax = L2 - 1
+                lengths = range(1, lmax + 1)
                 counter = "two_packet_histories"
-            first = alphabet[fo]
-            cur_st = st
-            if ctx.v.get("positioned"):
-                cur_st = pst["generic" if ctx.optname == "generic" else "generated"]
-            keylen = 4 if part == 1 else 3
+            elif part == 6:
+                starts = [starts_for(v)[si]]
+                alphabet = tuple((0, op) for op in OPS8)
+                lengths = range(1, LF + 1)
+                counter = "failing_read_histories"
+                need_tn = True
+            else:
+                starts = two_packet_starts(v)[si]
+                alphabet = TWO_OPS8
+                lengths = range(1, LF2 + 1)
+                counter = "failing_read_two_packet_histories"
+                need_tn = True
+            cur_st = stats_for(ctx)
+            keylen = 4 if part in (1, 6) else 3
             keybase = "%d|%s|%d|%s|" % (part, ctx.cls.__name__, si, mode)
-            run.cover("starts", "%s: %s" % (ctx.v["name"], starts))
+            run.cover("starts", "%s: %s" % (v["name"], starts))
             n_exec = 0
+            if mode == "sampled":
+                # Part 7, beyond the exhaustive bound: seeded samples
+                rng = common.rng_for(run.seed, "c17", "two-packet-failing", ctx.cls.__name__, si)
+                counter = "failing_read_two_packet_sampled_histories"
+                for k in range(NF2):
+                    ops = sampled_two_packet_history(rng, LF2 + 1, LF2 + 3)
+                    run.case(key=keybase + ",".join("%d%s" % o for o in ops), nontrivial=True)
+                    n_exec += 1
+                    bad = execute(ctx, starts, ops, "pure" if k % 3 else "observed", cur_st, states)
+                    if bad is not None:
+                        run.violation(bad[0], _witness(ctx, starts, ops, "pure" if k % 3 else "observed", bad[1]), None)
+                        if run.counters["violations"] > 20:
+                            stop = True
+                            break
+                if over_budget():
+                    stop = True
+                lengths = ()
+            else:
+                first = alphabet[fo]
             for length in lengths:
                 for rest in itertools.product(alphabet, repeat=length - 1):
                     ops = (first,) + rest
+                    if need_tn and not _has_tn(ops):
+                        continue
                     nt = _nontrivial(starts, ops)
                     if nt:
                         key = keybase + ",".join("%d%s" % o for o in (ops if quick else ops[:keylen]))
@@ -1083,17 +1371,24 @@ def run(run):
                         samples += 1
                 if stop:
                     break
-                if time.time() - t0 > budget:
-                    run.inconclusive_because("watchdog: enumeration not finished within %.0fs" % budget)
+                if over_budget():
                     stop = True
                     break
             run.count(counter, n_exec)
-            run.count("histories_%s_%s" % (ctx.v["name"], ctx.optname), n_exec)
+            run.count("histories_%s_%s" % (v["name"], ctx.optname), n_exec)
+            if group in ("embedded", "optional", "chained") and part != 1:
+                run.count("%s_%s" % (group, counter), n_exec)
         st.flush(run)
-        for path, ps in pst.items():
-            run.count("positioned_described_%s_unpack_then_tracked_change" % path,
-                      ps.c.get("observed_after_unpack_then_tracked_change", 0))
-            run.count("positioned_described_packs_with_fill_bytes", ps.c.get("packs_compared", 0))
+        for (group, path), ps in sorted(gst.items()):
+            c = ps.c
+            if group == "positioned":
+                run.count("positioned_described_%s_unpack_then_tracked_change" % path,
+                          c.get("observed_after_unpack_then_tracked_change", 0))
+                run.count("positioned_described_packs_with_fill_bytes", c.get("packs_compared", 0))
+            else:
+                for name in ("packs_auto_after_tracked_change", "packs_auto_after_unpack_then_tracked_change",
+                             "packs_explicit_inconsistent", "deletes_while_explicit", "reads_compared", "packs_compared"):
+                    run.count("%s_%s_%s" % (group, path, name), c.get(name, 0))
             ps.flush(run)
         for s in states:
             run.cover("model_state_x_operation", "explicit=%s consistent=%s tracked_len=%d op=%s" % s)
@@ -1103,8 +1398,13 @@ def run(run):
             run.extra["max_two_packet_history_length"] = L2
             run.extra["max_nested_history_length"] = dict(L3)
             run.extra["max_nested_history_length_instance_prototype"] = dict(L3I)
-            run.extra["operation_alphabet"] = list(OPS)
+            run.extra["operation_alphabet"] = list(OPS8)
             run.extra["max_positioned_history_length"] = LP
+            run.extra["max_short_bound_history_length"] = LP
+            run.extra["max_failing_read_history_length"] = LF
+            run.extra["max_failing_read_two_packet_history_length"] = {"exhaustive": LF2, "sampled": LF2 + 3}
+            run.extra["max_failing_read_nested_history_length"] = dict(LF3)
+            run.extra["cpu_seconds"] = round(time.process_time() - c0, 1)
             if samples == 0 and ctxs:
                 ctx = ctxs[1]
                 ops = tuple((0, o) for o in ("D1", "PK", "T1", "DEL"))
